@@ -41,6 +41,7 @@ structure DSt where
   allModel : List Bytes := []   -- app: every frame the model delivered in this history
   allImpl : List String := []   -- app spec: every frame digest the implementation reported at delivery
   sendMtu : Nat := 0            -- sockS: MTU of the SENDING transport
+  plainUdp : Bool := false      -- sockS: the sender is a plain UDP socket of the harness (`new udp`)
   blkQ : List Bytes := []       -- sockS: blocks defined and not yet handed to sendFrame
   sexpect : List (Nat × String) := []  -- sockS spec: blocks the sending transport must let through
   dead : Option String := none
@@ -84,6 +85,31 @@ def parseFrames (s : String) : List String := if s == "-" then [] else s.splitOn
 def field (toks : List String) (key : String) : Option String :=
   toks.findSome? fun t => if t.startsWith (key ++ "=") then some ((t.drop (key.length + 1)).toString) else none
 
+/-- the next block is handed to the sending side (`sf`: one sendFrame / one datagram; `sfr`: a plain UDP
+    peer sends it as TWO datagrams and, in between, the receiving transport's socket reports
+    "connection refused" — the error the transport ignores; it must not cost the buffered half) -/
+def sfStep (d : DSt) (got : String) (crash : List SpecFail) (extraCov : List String) : StepResult DSt :=
+  -- the next block is handed to the sending transport's sendFrame: it is written to the stream iff
+  -- it is not larger than that transport's MTU (`len(frame) > t.MTU()` → DROP), and must then come
+  -- out of the receiving transport's receive loop
+  if d.kind != .sockS then { st := d, expected := some "skip" } else
+  match d.dead with
+  | some r => { st := d, expected := some s!"dead {r}", spec := crash }
+  | none =>
+    match d.blkQ with
+    | [] => { st := d, expected := some "skip", spec := crash }
+    | b :: rest =>
+      let hang : List SpecFail := if got.startsWith "hang" then [⟨"no-spin", "hang", s!"sf: {got}"⟩] else []
+      if b.length ≤ d.sendMtu then
+        let r := parseLoop (d.appPending ++ b)
+        { st := { d with blkQ := rest, appPending := r.2.1, sockAcc := d.sockAcc ++ r.1,
+                         sexpect := d.sexpect ++ [(b.length, digest b)], credit := d.credit + b.length },
+          expected := some s!"k={b.length} w", spec := crash ++ hang,
+          cov := [if b.length = d.sendMtu then "sf-size-eq-mtu" else "sf-sent"] ++ extraCov, nontrivial := b.length = d.sendMtu }
+      else
+        { st := { d with blkQ := rest }, expected := some s!"k={b.length} w", spec := crash ++ hang,
+          cov := ["sf-larger-than-mtu-dropped"] }
+
 def stepC11 (d : DSt) (op : String) (got : String) : StepResult DSt :=
   let crash : List SpecFail :=
     if isCrash got || (got.splitOn " ret=PANIC").length > 1 then [⟨"no-crash", "crash", s!"{op}: {got}"⟩] else []
@@ -99,11 +125,17 @@ def stepC11 (d : DSt) (op : String) (got : String) : StepResult DSt :=
       { st := { kind := .sock }, expected := some "ok", cov := [s!"new-{k}"] }
     else if k == "udp" && mtu.toNat?.isSome then
       -- datagrams from a plain socket (no sending MTU): one block per `sf`
-      { st := { kind := .sockS, sendMtu := 1073741824 }, expected := some "ok", cov := [s!"new-{k}"] }
+      { st := { kind := .sockS, sendMtu := 1073741824, plainUdp := true }, expected := some "ok", cov := [s!"new-{k}"] }
     else { st := {}, expected := some "bad-op" }
   | ["new", k, smtu, rmtu] =>
     -- send-side leg: blocks go through the sendFrame of a real transport with MTU <smtu>; the MTU
     -- <rmtu> of the receiving transport (possibly lower) must not matter
+    if k == "tcpb" && smtu.toNat?.isSome && rmtu.toNat?.isSome then
+      -- back-pressure leg: a real TCP transport sends to a peer that reads nothing for <rmtu> ms
+      -- and then everything: a blocked Write must neither lose nor tear a block
+      { st := { kind := .sockS, sendMtu := smtu.toNat?.getD 0 }, expected := some "ok",
+        cov := ["new-tcpb"] ++ (if rmtu.toNat?.getD 0 ≥ 2000 then ["tcpb-stall-over-2s"] else []) }
+    else
     if (k == "tcps" || k == "unixs" || k == "udps") && smtu.toNat?.isSome && rmtu.toNat?.isSome then
       { st := { kind := .sockS, sendMtu := smtu.toNat?.getD 0 }, expected := some "ok",
         cov := [s!"new-{k}"] ++ (if rmtu.toNat?.getD 0 < smtu.toNat?.getD 0 then ["recv-mtu-below-send-mtu"] else []) }
@@ -136,27 +168,11 @@ def stepC11 (d : DSt) (op : String) (got : String) : StepResult DSt :=
       { st := { d with blkQ := rest }, expected := some s!"k={a.length + b.length} f={digest a},{digest b}",
         spec := crash ++ fails, cov := ["cs"], nontrivial := true }
     | _ => { st := d, expected := some "skip" }
-  | ["sf"] =>
-    -- the next block is handed to the sending transport's sendFrame: it is written to the stream iff
-    -- it is not larger than that transport's MTU (`len(frame) > t.MTU()` → DROP), and must then come
-    -- out of the receiving transport's receive loop
-    if d.kind != .sockS then { st := d, expected := some "skip" } else
-    match d.dead with
-    | some r => { st := d, expected := some s!"dead {r}", spec := crash }
-    | none =>
-      match d.blkQ with
-      | [] => { st := d, expected := some "skip", spec := crash }
-      | b :: rest =>
-        let hang : List SpecFail := if got.startsWith "hang" then [⟨"no-spin", "hang", s!"sf: {got}"⟩] else []
-        if b.length ≤ d.sendMtu then
-          let r := parseLoop (d.appPending ++ b)
-          { st := { d with blkQ := rest, appPending := r.2.1, sockAcc := d.sockAcc ++ r.1,
-                           sexpect := d.sexpect ++ [(b.length, digest b)], credit := d.credit + b.length },
-            expected := some s!"k={b.length} w", spec := crash ++ hang,
-            cov := [if b.length = d.sendMtu then "sf-size-eq-mtu" else "sf-sent"], nontrivial := b.length = d.sendMtu }
-        else
-          { st := { d with blkQ := rest }, expected := some s!"k={b.length} w", spec := crash ++ hang,
-            cov := ["sf-larger-than-mtu-dropped"] }
+  | ["sf"] => sfStep d got crash []
+  | ["sfr", k] =>
+    if k.toNat?.isNone then { st := d, expected := some "bad-op" } else
+    if !d.plainUdp then { st := d, expected := some "skip" } else
+    sfStep d got crash ["sfr-refused-mid-block"]
   | [rdop, n] =>
     if rdop != "rd" && rdop != "rde" then { st := d, expected := some "bad-op" } else
     let withErr := rdop == "rde"
